@@ -6,6 +6,7 @@ import (
 	"math/rand"
 	"os"
 	"path/filepath"
+	"sync"
 	"time"
 )
 
@@ -24,6 +25,11 @@ type Step struct {
 	Cmid    string                 `json:"cmid,omitempty"`    // "next": gate only the client's next ClientMessageId
 	Forced  bool                   `json:"forced,omitempty"`
 	To      string                 `json:"to,omitempty"` // bind: role the number N is bound to
+	// membership steps
+	Via     interface{} `json:"via,omitempty"`     // join/part: the node the request is sent to (default: some member)
+	NoWait  bool        `json:"nowait,omitempty"`  // join/part: do not wait until the leader reports the new configuration
+	Expect  string      `json:"expect,omitempty"`  // join: "snapshot" = the node must get its state by InstallSnapshot
+	Members []int       `json:"members,omitempty"` // bindmembers: the model's initial configuration
 }
 
 type Schedule struct {
@@ -35,8 +41,14 @@ type Schedule struct {
 	// FoldAfterMs > 0: entries committed earlier than this many ms after the start of
 	// the orchestrator are folded into the server state by every snapshot
 	// (-canary_compaction_start); the schedule must contain a "foldpoint" step.
-	FoldAfterMs int    `json:"fold_after_ms"`
-	Steps       []Step `json:"steps"`
+	FoldAfterMs int `json:"fold_after_ms"`
+	// Initial > 0: only nodes 1..Initial form the network at first; the others are
+	// started later by "join" steps (with -join, on an empty -raftdir).
+	Initial int `json:"initial"`
+	// TrailingLogs >= 0: raft.Config.TrailingLogs of every node (VERIF_TRAILING_LOGS), so
+	// that a snapshot compacts the raft log and late joiners / laggards need InstallSnapshot.
+	TrailingLogs *int   `json:"trailing_logs"`
+	Steps        []Step `json:"steps"`
 }
 
 type Runner struct {
@@ -51,6 +63,12 @@ type Runner struct {
 	notes   []string
 	t0      time.Time
 	fold    map[int][2]uint64 // session -> id of the last message before the fold point
+	// expectations of the schedule about what it exercised that were not met (e.g. a
+	// late joiner that was expected to need InstallSnapshot replayed the log instead)
+	unmet            []string
+	snapshotInstalls int
+	lastJoined       int
+	stateRound       int
 }
 
 func (r *Runner) note(format string, a ...interface{}) {
@@ -71,12 +89,17 @@ func (r *Runner) Setup() error {
 	if _, err := c.WaitLeader(40*time.Second, 0); err != nil {
 		return err
 	}
-	for id := 2; id <= len(c.nodes); id++ {
+	c.setMembers([]int{1})
+	for id := 2; id <= c.initial; id++ {
+		c.rec.Log("cfgreq", "kind", "join", "n", id, "via", 1, "setup", true)
 		if err := c.Start(id); err != nil {
 			return err
 		}
 		if err := c.WaitServing(id, 60*time.Second); err != nil {
 			return err
+		}
+		if !r.awaitCfg("join", id, 40*time.Second) {
+			return inconclusive("setup: node %d did not become a member", id)
 		}
 	}
 	// every node knows the same leader
@@ -84,7 +107,7 @@ func (r *Runner) Setup() error {
 	for {
 		l := c.Leader()
 		ok := l != 0
-		for _, n := range c.nodes {
+		for _, n := range c.nodes[:c.initial] {
 			if c.leaderView(n.id) != l {
 				ok = false
 			}
@@ -98,7 +121,7 @@ func (r *Runner) Setup() error {
 		time.Sleep(100 * time.Millisecond)
 	}
 	for i := 1; i <= r.sch.Clients; i++ {
-		cl, err := c.createSession(i, (i-1)%len(c.nodes)+1)
+		cl, err := c.createSession(i, (i-1)%c.initial+1)
 		if err != nil {
 			return err
 		}
@@ -121,7 +144,7 @@ func (r *Runner) resolve(n interface{}) int {
 		var cands []int
 		for _, nd := range c.nodes {
 			up, _, _ := nd.state()
-			if skip[nd.id] || (needUp && !up) {
+			if skip[nd.id] || (needUp && (!up || !nd.isMember())) {
 				continue
 			}
 			cands = append(cands, nd.id)
@@ -159,10 +182,55 @@ func (r *Runner) resolve(n interface{}) int {
 		case "follower2":
 			f := pickOther(map[int]bool{l: true}, true)
 			return pickOther(map[int]bool{l: true, f: true}, true)
+		case "new", "nonmember":
+			// a node that is not part of the network and not running: never started first
+			for _, nd := range c.nodes {
+				nd.mu.Lock()
+				fits := !nd.up && !nd.member && nd.inc == 0
+				nd.mu.Unlock()
+				if fits {
+					return nd.id
+				}
+			}
+			for _, nd := range c.nodes {
+				if up, _, _ := nd.state(); !up && !nd.isMember() {
+					return nd.id
+				}
+			}
+			return 0
+		case "removed":
+			for _, nd := range c.nodes {
+				nd.mu.Lock()
+				fits := !nd.member && nd.inc > 0
+				nd.mu.Unlock()
+				if fits {
+					return nd.id
+				}
+			}
+			return 0
+		case "joined":
+			// the node that joined last (late joiner)
+			if r.lastJoined != 0 {
+				if up, _, _ := c.node(r.lastJoined).state(); up {
+					return r.lastJoined
+				}
+			}
+			return 0
+		case "member":
+			var ups []int
+			for _, nd := range c.nodes {
+				if up, _, _ := nd.state(); up && nd.isMember() {
+					ups = append(ups, nd.id)
+				}
+			}
+			if len(ups) == 0 {
+				return 0
+			}
+			return ups[r.rng.Intn(len(ups))]
 		case "random":
 			var ups []int
 			for _, nd := range c.nodes {
-				if up, _, _ := nd.state(); up {
+				if up, _, _ := nd.state(); up && nd.isMember() {
 					ups = append(ups, nd.id)
 				}
 			}
@@ -172,7 +240,7 @@ func (r *Runner) resolve(n interface{}) int {
 			return ups[r.rng.Intn(len(ups))]
 		case "randomdown":
 			for _, nd := range c.nodes {
-				if up, _, _ := nd.state(); !up {
+				if up, _, _ := nd.state(); !up && nd.isMember() {
 					return nd.id
 				}
 			}
@@ -489,14 +557,18 @@ func (r *Runner) Exec(st Step) error {
 		// model: Elect(n). Forced: the leader is healthy, so it is paused until
 		// somebody else took over.
 		old := c.Leader()
-		live := 0
+		live, total := 0, 0
 		for _, nd := range c.nodes {
+			if !nd.isMember() {
+				continue
+			}
+			total++
 			if nd.live() {
 				live++
 			}
 		}
 		if st.Forced && old != 0 {
-			if 2*(live-1) <= len(c.nodes) {
+			if 2*(live-1) <= total {
 				// the model lets the deposed leader vote; pausing it cannot realise that
 				r.note("leaderchange: forced change skipped, only %d live nodes", live)
 				return nil
@@ -512,7 +584,7 @@ func (r *Runner) Exec(st Step) error {
 				r.bindLeader(int(m), nl)
 			}
 		} else {
-			if 2*live <= len(c.nodes) {
+			if 2*live <= total {
 				r.note("leaderchange: no majority alive, nothing to wait for")
 				return nil
 			}
@@ -542,13 +614,292 @@ func (r *Runner) Exec(st Step) error {
 				r.bindLeader(int(m), l)
 			}
 		}
+	case "bindmembers":
+		// the model's initial configuration: its leader is the real leader, its other
+		// members are the other running nodes, everybody else a node not yet started
+		l := c.Leader()
+		var others, outside []int
+		for _, nd := range c.nodes {
+			if nd.id == l {
+				continue
+			}
+			if nd.isMember() {
+				others = append(others, nd.id)
+			} else {
+				outside = append(outside, nd.id)
+			}
+		}
+		lm := 0
+		if m, ok := st.N.(float64); ok {
+			lm = int(m)
+			r.bind[lm] = l
+		}
+		inModel := map[int]bool{}
+		for _, m := range st.Members {
+			inModel[m] = true
+			if m != lm && len(others) > 0 {
+				r.bind[m] = others[0]
+				others = others[1:]
+			}
+		}
+		for m := 1; m <= len(c.nodes); m++ {
+			if !inModel[m] && len(outside) > 0 {
+				r.bind[m] = outside[0]
+				outside = outside[1:]
+			}
+		}
+	case "join", "rejoin":
+		return r.join(st)
+	case "part":
+		return r.part(st)
+	case "retire":
+		if n := r.resolve(st.N); n != 0 && !c.node(n).isMember() {
+			c.Kill(n, "retired")
+			c.Wipe(n)
+		}
+	case "checkstates":
+		// mid-run: everything acknowledged and applied everywhere, then every live member's
+		// serialised state is recorded (a late joiner's state came out of InstallSnapshot,
+		// the others applied every entry themselves)
+		if !r.barrier(time.Duration(max(st.Ms, 60000)) * time.Millisecond) {
+			return inconclusive("checkstates: posts not acknowledged")
+		}
+		if _, err := r.converge(60 * time.Second); err != nil {
+			return err
+		}
+		if err := r.recordStates(); err != nil {
+			return err
+		}
+	case "waitcfg":
+		// until the leader reports a configuration and no request is in flight
+		r.observeCfg(time.Duration(max(st.Ms, 20000)) * time.Millisecond)
 	default:
 		return inconclusive("unknown schedule step %q", st.Op)
 	}
 	return nil
 }
 
-// converge waits until all live nodes applied the same highest index, stable
+// awaitCfg waits until the leader's latest configuration contains (join) / does not
+// contain (part) node n, records the configuration it reports ("cfg") and adopts it.
+func (r *Runner) awaitCfg(kind string, n int, d time.Duration) bool {
+	c := r.c
+	end := time.Now().Add(d)
+	for {
+		l, peers, ok := c.Peers()
+		if ok && contains(peers, n) == (kind == "join") {
+			serving := true
+			if kind == "join" {
+				// the joining process carries on only after its POST /join was answered
+				up, _, _ := c.node(n).state()
+				serving = up && c.leaderView(n) != 0
+			}
+			if serving {
+				c.setMembers(peers)
+				c.rec.Log("cfg", "kind", kind, "n", n, "leader", l, "peers", peers, "ok", true)
+				return true
+			}
+		}
+		if up, _, _ := c.node(n).state(); kind == "join" && !up {
+			break // the joining process gave up (robustirc.go joinMaster: log.Fatal)
+		}
+		if time.Now().After(end) {
+			break
+		}
+		time.Sleep(100 * time.Millisecond)
+	}
+	// not confirmed: the change may or may not have happened; say what can be seen
+	if l, peers, ok := c.Peers(); ok {
+		c.setMembers(peers)
+		c.rec.Log("cfg", "kind", kind, "n", n, "leader", l, "peers", peers, "ok", false)
+	} else {
+		c.rec.Log("cfgunknown", "kind", kind, "n", n)
+	}
+	r.note("%s of node %d not confirmed within %v", kind, n, d)
+	return false
+}
+
+// observeCfg records the configuration the leader reports (after faults healed).
+func (r *Runner) observeCfg(d time.Duration) ([]int, bool) {
+	c := r.c
+	end := time.Now().Add(d)
+	for {
+		if l, peers, ok := c.Peers(); ok {
+			c.setMembers(peers)
+			c.rec.Log("cfg", "kind", "observe", "n", 0, "leader", l, "peers", peers, "ok", true)
+			return peers, true
+		}
+		if time.Now().After(end) {
+			return nil, false
+		}
+		time.Sleep(150 * time.Millisecond)
+	}
+}
+
+// join starts a node that is not part of the network on an empty -raftdir with
+// -join=<via>: the new process POSTs /join to that peer, which proxies it to the
+// leader (api.handleJoin -> raft AddPeer). "rejoin" first retires the node.
+func (r *Runner) join(st Step) error {
+	c := r.c
+	n := 0
+	if st.N == nil {
+		n = r.resolve("new")
+	} else {
+		n = r.resolve(st.N)
+	}
+	if n == 0 {
+		r.note("join: no node left to join")
+		return nil
+	}
+	nd := c.node(n)
+	if nd.isMember() {
+		r.note("join: node %d is a member of the network already, step skipped", n)
+		return nil
+	}
+	if up, _, _ := nd.state(); up {
+		if st.Op != "rejoin" {
+			r.note("join: node %d is still running, step skipped", n)
+			return nil
+		}
+		c.Kill(n, "retired")
+	}
+	c.Wipe(n)
+	via := 0
+	if st.Via != nil {
+		via = r.resolve(st.Via)
+	}
+	if via == 0 || via == n {
+		via = r.resolve("member")
+	}
+	if via == 0 {
+		r.note("join: no running member to join through")
+		return nil
+	}
+	nd.mu.Lock()
+	nd.removed = true // a process whose join request fails exits on its own (joinMaster: log.Fatal)
+	nd.mu.Unlock()
+	c.rec.Log("cfgreq", "kind", "join", "n", n, "via", via)
+	if err := c.StartVia(n, via); err != nil {
+		return err
+	}
+	if st.NoWait {
+		return nil
+	}
+	ok := r.awaitCfg("join", n, time.Duration(max(st.Ms, 40000))*time.Millisecond)
+	nd.mu.Lock()
+	nd.removed = !ok
+	nd.mu.Unlock()
+	if ok {
+		r.lastJoined = n
+	}
+	if ok && st.Expect == "snapshot" {
+		r.expectSnapshot(n)
+	} else if !ok && st.Expect != "" {
+		r.unmet = append(r.unmet, fmt.Sprintf("node %d did not become a member", n))
+	}
+	return nil
+}
+
+// expectSnapshot waits until the new node has caught up with the leader and checks in
+// ITS OWN hook trace that FSM.Restore ran: it started on an empty -raftdir, so that can
+// only have been an InstallSnapshot.
+func (r *Runner) expectSnapshot(n int) {
+	c := r.c
+	end := time.Now().Add(30 * time.Second)
+	for time.Now().Before(end) {
+		l := c.Leader()
+		if l != 0 && c.node(n).live() {
+			if a := c.lastApplied(l); a > 0 && c.lastApplied(n) >= a {
+				break
+			}
+		}
+		time.Sleep(100 * time.Millisecond)
+	}
+	k := c.restoredCount(n)
+	c.rec.Log("snapinstall", "n", n, "restored", k)
+	if k == 0 {
+		r.unmet = append(r.unmet, fmt.Sprintf("node %d joined without InstallSnapshot (no fsm.restored in its trace)", n))
+	} else {
+		r.snapshotInstalls += k
+	}
+}
+
+// part removes a node from the network the way cmd/robustirc-removepeer does: POST
+// /part {"Addr": <peer_addr>} with the network password to some node, which proxies
+// it to the leader (api.handlePart -> raft RemovePeer).
+func (r *Runner) part(st Step) error {
+	c := r.c
+	n := r.resolve(st.N)
+	if n == 0 || !c.node(n).isMember() {
+		r.note("part: nobody to remove")
+		return nil
+	}
+	members := 0
+	for _, nd := range c.nodes {
+		if nd.isMember() {
+			members++
+		}
+	}
+	if members < 3 {
+		// robustirc-removepeer: "cannot remove any more nodes or the network will freeze"
+		// (and main() refuses to start a node whose configuration is just itself)
+		r.note("part: only %d members, step skipped as robustirc-removepeer would refuse", members)
+		return nil
+	}
+	via := 0
+	if st.Via != nil {
+		via = r.resolve(st.Via)
+	}
+	if via == 0 {
+		via = r.resolve("member")
+	}
+	if via == 0 {
+		r.note("part: no running member to send the request to")
+		return nil
+	}
+	nd := c.node(n)
+	nd.mu.Lock()
+	nd.removed = true // a leader that removes itself terminates once the change is committed
+	nd.mu.Unlock()
+	body, _ := json.Marshal(map[string]string{"Addr": nd.addr})
+	c.rec.Log("cfgreq", "kind", "part", "n", n, "via", via)
+	code, txt, err := c.postPrivate(via, "/part", body, 20*time.Second)
+	c.rec.Log("partreply", "n", n, "via", via, "code", code, "err", fmt.Sprint(err), "body", txt)
+	if st.NoWait {
+		return nil
+	}
+	d := 20 * time.Second
+	if err != nil || code != 200 {
+		d = 3 * time.Second // the request failed; the change can have happened all the same
+	}
+	ok := r.awaitCfg("part", n, d)
+	if !ok {
+		nd.mu.Lock()
+		nd.removed = !nd.member
+		nd.mu.Unlock()
+	}
+	return nil
+}
+
+// recordStates reads /status/state of every live member; the records of one call form
+// one round (only states of the same round are compared).
+func (r *Runner) recordStates() error {
+	c := r.c
+	r.stateRound++
+	for _, nd := range c.nodes {
+		if !nd.live() || !nd.isMember() {
+			continue
+		}
+		text, err := c.serverState(nd.id)
+		if err != nil {
+			return inconclusive("cannot read /status/state of node %d: %v", nd.id, err)
+		}
+		_, _, inc := nd.state()
+		c.rec.Log("state", "n", nd.id, "k", inc, "round", r.stateRound, "text", text)
+	}
+	return nil
+}
+
+// converge waits until all live members applied the same highest index, stable
 // for a moment.
 func (r *Runner) converge(d time.Duration) (uint64, error) {
 	c := r.c
@@ -559,7 +910,7 @@ func (r *Runner) converge(d time.Duration) (uint64, error) {
 		var lo, hi uint64
 		first := true
 		for _, nd := range c.nodes {
-			if !nd.live() {
+			if !nd.live() || !nd.isMember() {
 				continue
 			}
 			a := c.lastApplied(nd.id)
@@ -661,19 +1012,38 @@ func (r *Runner) Quiesce() error {
 	for _, nd := range c.nodes {
 		c.Resume(nd.id)
 	}
-	for _, nd := range c.nodes {
-		if up, _, _ := nd.state(); !up {
-			if err := c.Start(nd.id); err != nil {
+	startDown := func(wait bool) error {
+		for _, nd := range c.nodes {
+			if up, _, _ := nd.state(); !up && nd.isMember() {
+				if err := c.Start(nd.id); err != nil {
+					return err
+				}
+			}
+		}
+		for _, nd := range c.nodes {
+			if !wait || !nd.isMember() {
+				continue
+			}
+			if err := c.WaitServing(nd.id, 90*time.Second); err != nil {
 				return err
 			}
 		}
+		return nil
 	}
-	for _, nd := range c.nodes {
-		if err := c.WaitServing(nd.id, 90*time.Second); err != nil {
-			return err
-		}
+	// the nodes the orchestrator believes to be members (a request whose outcome it could
+	// not see may have changed that) ...
+	if err := startDown(false); err != nil {
+		return err
 	}
-	if _, err := c.WaitLeader(60*time.Second, 0); err != nil {
+	if _, err := c.WaitLeader(90*time.Second, 0); err != nil {
+		return err
+	}
+	// ... but the configuration in force is what the leader says it is; a member the
+	// orchestrator did not know of (a join whose reply got lost) is started as well
+	if _, ok := r.observeCfg(30 * time.Second); !ok {
+		return inconclusive("quiesce: the leader does not report a configuration")
+	}
+	if err := startDown(true); err != nil {
 		return err
 	}
 	c.rec.Log("healed")
@@ -689,16 +1059,59 @@ func (r *Runner) Quiesce() error {
 	for _, rd := range r.readers {
 		rd.Stop()
 	}
-	c.rec.Log("quiescent", "applied", last)
-	for _, cl := range r.clients {
-		for _, nd := range c.nodes {
-			msgs, err := c.FinalRead(cl, nd.id, r.fold[cl.no], 1200*time.Millisecond, 40*time.Second)
-			if err != nil {
-				return err
+	peers, ok := r.observeCfg(20 * time.Second)
+	if !ok {
+		return inconclusive("quiesce: the leader does not report a configuration")
+	}
+	c.rec.Log("quiescent", "applied", last, "members", peers)
+	// the replicated state itself, as every member serialises it
+	if err := r.recordStates(); err != nil {
+		return err
+	}
+	// members: the complete stream (all reads run concurrently, the results are recorded
+	// in a fixed order). A node that was removed from the network and still runs serves
+	// what it had when it was cut off (stale) - or refuses ("raft: LastContact too long ago").
+	type finalRes struct {
+		n, inc, s int
+		stale     bool
+		msgs      []map[string]interface{}
+		err       error
+	}
+	var jobs []*finalRes
+	for pass := 0; pass < 2; pass++ {
+		for _, cl := range r.clients {
+			for _, nd := range c.nodes {
+				up, _, inc := nd.state()
+				if !up || nd.isMember() != (pass == 0) {
+					continue
+				}
+				jobs = append(jobs, &finalRes{n: nd.id, inc: inc, s: cl.no, stale: pass == 1})
 			}
-			_, _, inc := nd.state()
-			c.rec.Log("final", "n", nd.id, "k", inc, "s", cl.no, "msgs", msgs)
 		}
+	}
+	var wg sync.WaitGroup
+	for _, j := range jobs {
+		j := j
+		wg.Add(1)
+		go func() {
+			defer wg.Done()
+			deadline := 40 * time.Second
+			if j.stale {
+				deadline = 2500 * time.Millisecond
+			}
+			j.msgs, j.err = c.FinalRead(r.client(j.s), j.n, r.fold[j.s], 1200*time.Millisecond, deadline)
+		}()
+	}
+	wg.Wait()
+	for _, j := range jobs {
+		if j.err != nil {
+			if j.stale {
+				c.rec.Log("stalerefused", "n", j.n, "s", j.s, "err", j.err.Error())
+				continue
+			}
+			return j.err
+		}
+		c.rec.Log("final", "n", j.n, "k", j.inc, "s", j.s, "msgs", j.msgs, "stale", j.stale)
 	}
 	return nil
 }
